@@ -10,8 +10,8 @@ RULE = ("same exploration as C01 (every joint degree sequence in the box x motif
         "callbacks returning a bare edge, a one-edge list, exactly two edges, k edges with homogeneous and with "
         "per-edge names; non-trivial = instance producing >= 2 motif instances")
 BOUNDS = gen_common and {
-    "quick": "N 1..4; entries 0..2; 9 fast + 11 custom configs; instances above 700 distinct arrangements skipped",
-    "thorough": "N<=5, entries<=3 (t=1); N<=4, entries<=2 and N<=5, entries<=1 (t=2); N<=4, entries<=1 and N<=3, entries<=2 (t=3); 12 fast + 13 custom configs; cap 5000 arrangements",
+    "quick": "N 1..4, entries 0..2, plus N<=3 entries<=4 (t=1), N<=2 entries<=3 (t=2); 10 fast + 12 custom configs; instances above 500 distinct arrangements skipped",
+    "thorough": "N<=5, entries<=3 (t=1); N<=4, entries<=2 and N<=5, entries<=1 (t=2); N<=4, entries<=1 and N<=3, entries<=2 (t=3); 13 fast + 14 custom configs; cap 5000 arrangements",
 }
 ASSUMPTIONS = ["a naming callback returns one name per edge (a bare string only for a single-edge motif)",
                "rows of one motif id are compared with one recorded callback return as multisets of (edge, name)"]
